@@ -17,6 +17,9 @@ inductive GetKind where
 inductive Op where
   | set (h : Nat) (name : String) (idx : Int) (v : Prim) (o : Opts)
   | setChild (h : Nat) (name : String) (idx : Int) (c : Val) (o : Opts)
+  | pathOf (h : Nat)                                              -- Path(".")
+  | setChildNil (h : Nat)                                         -- SetChild(name, idx, nil)
+  | setChildHandle (h : Nat) (k : Nat)                            -- SetChild with the config behind handle k as the child
   | remove (h : Nat) (name : String) (idx : Int) (o : Opts)
   | merge (h : Nat) (frm : GoData) (o : Opts)
   | child (h : Nat) (name : String) (idx : Int) (o : Opts)
@@ -119,6 +122,17 @@ def opStep (std : Stdlib) (s : OpState) (op : Op) : Outcome OpOut × OpState :=
       | .err e => (.err e, none)
       | .panic m => (.panic m, none)
       | .fuel => (.fuel, none)
+  | .pathOf h =>
+    (match s.handles[h]? with
+     | some p => (.ok (.str (pathString p ".")), s)
+     | none => (invalidHandle, s))
+  | .setChildNil _ => (.err { reason := .nilValue }, s)
+  | .setChildHandle h k =>
+    -- a config can not become a setting of itself or below itself: the receiver's own chain of parents is refused;
+    -- attaching any other existing config is outside this model (a node attached twice: known finding D20)
+    match s.handles[h]?, s.handles[k]? with
+    | some ph, some pk => if pk.isPrefixOf ph then (.err { reason := .cyclic }, s) else (invalidHandle, s)
+    | _, _ => (invalidHandle, s)
   | .remove h name idx o =>
     let (out, s') := withNode h fun node _ =>
       match pathRemove tcPlain (parsePathIdx name idx o) node with
